@@ -99,6 +99,9 @@ for _pid, _mods in {"C02": ["CachedProofs.LayerB.History"],                     
                     "C18": ["CachedProofs.LayerB.NoDeadlock", "CachedProofs.LayerB.Terminates"],                        # no deadlock at action granularity: some internal action is always enabled; wait chains ≤ 3, acyclic
                     "C15": ["CachedProofs.Extra.Small"], "C16": ["CachedProofs.Extra.Small"], "C06": ["CachedProofs.Extra.Small"]}.items():
     EXTRA_MODULES[_pid] = EXTRA_MODULES.get(_pid, []) + _mods
+for _pid in ("C12", "C13", "C18"):      # quiescent and the worker alive: every acknowledgement resolved; stability; the dead-worker counterexample
+    EXTRA_MODULES[_pid] = EXTRA_MODULES.get(_pid, []) + ["CachedProofs.LayerB.AcksResolved"]
+EXTRA_MODULES["C17"] = EXTRA_MODULES.get("C17", []) + ["CachedProofs.LayerB.ClosedRunning"]      # used <= i64Max from Reach; the closed theorem for runs without shutdown(), not vacuous at maxWeight = i64::MAX
 for _pid in ("C02", "C13", "C06"):      # multi-key reads after the flag under every interleaving; the admission rule per worker action
     EXTRA_MODULES[_pid] = EXTRA_MODULES.get(_pid, []) + ["CachedProofs.LayerB.MgetShutdown"]
 for _pid in ("C02", "C04", "C09", "C13", "C15", "C16"):      # a `next()` of an iterator kept open IS the model's `get`; drained at once it is the multi-key read
